@@ -333,3 +333,327 @@ def attr_run(tier, seed):
             n_same += 1
     samples = [{"case": c, "source": metas[2 * k]["src"]} for k, c in list(enumerate(cases))[:: max(1, len(cases) // 5)][:5]]
     return {"tlc": {k: res[k] for k in ("states", "distinct", "wall")}, "cases": len(cases), "equivalent": n_same, "findings": findings, "samples": samples, "wall": time.time() - t0}
+
+
+# ------------------------------------------------------------------------------------------
+# C17: Cli.tla
+
+_cli_bin = None
+
+
+def build_cli():
+    global _cli_bin
+    if _cli_bin is None:
+        tdir = os.path.join(WORK, "target-cli")
+        run(["cargo", "build", "-p", "logos-cli", "--offline", "--target-dir", tdir], cwd=REPO, timeout=3600)
+        _cli_bin = os.path.join(tdir, "debug", "logos-cli")
+    return _cli_bin
+
+
+def render_cli_source(s, stripped=False, keep=None):
+    def derive(lst, trailing):
+        return "#[derive(%s%s)]" % (", ".join(lst), "," if trailing and lst else "")
+    lines = []
+    if s["extras"] == "doc_repr_before":
+        lines += ["/// The tokens", "#[repr(u8)]"]
+    if stripped:
+        lines.append(derive(keep[0], s["trailing"] and len(keep[0]) == len(s["first"])))
+        if s["second"]:
+            lines.append(derive(keep[1], False))
+    else:
+        lines.append(derive(s["first"], s["trailing"]))
+        if s["second"]:
+            lines.append(derive(s["second"], False))
+    if s["extras"] == "cfg_attr_after":
+        lines.append("#[cfg_attr(test, derive(Hash))]")
+    if s["nlogos"] >= 1 and not stripped:
+        lines.append('#[logos(skip " ")]')
+    if s["extras"] == "allow_between":
+        lines.append("#[allow(dead_code)]")
+    if s["nlogos"] >= 2 and not stripped:
+        lines.append("#[logos(extras = u32)]")
+    lines.append("pub enum Tok {")
+    body = [("    /// doc on a variant", True), ('    #[token("a")]', False), ("    A,", True),
+            ("    #[cfg(test)]", True), ('    #[regex("[0-9]+")]', False), ('    #[regex("x+")]', False), ("    B,", True),
+            ('    #[token("c", |_| 1u32)]', False), ("    C(#[allow(unused)] u32),", True),
+            ('    #[doc = "no logos attribute"]', True), ("    D,", True)]
+    for text, keepit in body:
+        if keepit or not stripped:
+            lines.append(text)
+    lines.append("}")
+    return "\n".join(lines) + "\n"
+
+
+def cli_run(tier, seed):
+    t0 = time.time()
+    maxops = 4 if tier == "quick" else 5
+    res = run_tlc("Cli.tla", "Cli.cfg", {"MAXOPS": str(maxops)}, workers=4, metaname="cli")
+    if not res["ok"]:
+        raise ToolError("Cli.tla violated at specification level:\n" + res["out"][-2000:])
+    recs = tlc_records(res["out"])
+    strips = [r[2] for r in recs if r[0] == "STRIP"]
+    files = [r[2] for r in recs if r[0] == "FILES"]
+    rng = random.Random(seed + 17)
+    if tier == "quick" and len(strips) > 1200:
+        strips = rng.sample(strips, 1200)
+    cli = build_cli()
+    wd = os.path.join(workdir(), "cli-%d" % os.getpid())
+    shutil.rmtree(wd, ignore_errors=True)
+    os.makedirs(wd)
+    findings = []
+    items = []
+    inp = os.path.join(wd, "in.rs")
+    for k, c in enumerate(strips):
+        s = c["src"]
+        src = render_cli_source(s)
+        exp = render_cli_source(s, stripped=True, keep=c["keep"])
+        with open(inp, "w") as f:
+            f.write(src)
+        p = subprocess.run([cli, inp], capture_output=True, text=True)
+        key = "strip:%s|%s|%s|%s|%d" % (",".join(s["first"]), "T" if s["trailing"] else "-", ",".join(s["second"]), s["extras"], s["nlogos"])
+        if p.returncode != 0:
+            findings.append({"key": key, "what": "logos-cli failed (exit %d): %s" % (p.returncode, p.stderr[-300:]), "source": src})
+            continue
+        items.append({"id": key, "src": src, "stdout": p.stdout, "expect": exp})
+    with open(os.path.join(wd, "cc.ndjson"), "w") as f:
+        for it in items:
+            f.write(json.dumps(it) + "\n")
+    run([build_gen(), "clicheck", os.path.join(wd, "cc.ndjson"), os.path.join(wd, "cc.out")], timeout=3600)
+    for it, l in zip(items, open(os.path.join(wd, "cc.out"))):
+        o = json.loads(l)
+        if o["why"]:
+            findings.append({"key": it["id"], "what": o["why"][:600], "source": it["src"], "expected_enum": it["expect"], "stdout_head": it["stdout"][:400]})
+    # file histories
+    src = render_cli_source({"first": ["Debug", "Logos"], "trailing": False, "second": [], "extras": "none", "nlogos": 1})
+    with open(inp, "w") as f:
+        f.write(src)
+    p = subprocess.run([cli, inp], capture_output=True, text=True)
+    current = p.stdout[:-1] if p.stdout.endswith("\n") else p.stdout
+    outp = os.path.join(wd, "out.rs")
+    n_steps = 0
+    for h in files:
+        if os.path.exists(outp):
+            os.remove(outp)
+        trail = []
+        for op, exit_exp, file_exp in h["hist"]:
+            before = open(outp, "rb").read() if os.path.exists(outp) else None
+            rc = 0
+            if op == "write":
+                rc = subprocess.run([cli, inp, "--output", outp], capture_output=True).returncode
+            elif op == "check":
+                rc = subprocess.run([cli, inp, "--output", outp, "--check"], capture_output=True).returncode
+            elif op == "tamper":
+                if os.path.exists(outp):
+                    with open(outp, "a") as f:
+                        f.write("// tampered\n")
+            elif op == "crlf":
+                if os.path.exists(outp) and open(outp, newline="").read() == current:
+                    with open(outp, "w", newline="") as f:
+                        f.write(current.replace("\n", "\r\n") + "\r\n")
+            elif op == "delete":
+                if os.path.exists(outp):
+                    os.remove(outp)
+            after = open(outp, "rb").read() if os.path.exists(outp) else None
+            if after is None:
+                st = "absent"
+            elif after.decode() == current:
+                st = "current"
+            elif after.decode().replace("\r\n", "\n").rstrip("\n") == current.rstrip("\n"):
+                st = "crlf"
+            else:
+                st = "stale"
+            n_steps += 1
+            trail.append((op, rc, st))
+            bad = None
+            if op in ("write", "check") and (rc != 0) != (exit_exp != 0):
+                bad = "exit status %d, expected %s" % (rc, "0" if exit_exp == 0 else "non-zero")
+            elif st != file_exp:
+                bad = "file is %s, expected %s" % (st, file_exp)
+            elif op == "check" and before != after:
+                bad = "--check modified the file"
+            if bad:
+                findings.append({"key": "files:" + ">".join(o[0] for o in h["hist"][: len(trail)]), "what": "after %s: %s" % (trail, bad), "source": src})
+                break
+    shutil.rmtree(wd, ignore_errors=True)
+    samples = [{"source": s["src"], "expected_stripped": s["expect"]} for s in items[:: max(1, len(items) // 3)][:3]] + [{"history": h["hist"]} for h in files[:2]]
+    return {"tlc": {k: res[k] for k in ("states", "distinct", "wall")}, "strip_cases": len(strips), "histories": len(files), "history_steps": n_steps,
+            "findings": findings, "samples": samples, "wall": time.time() - t0}
+
+
+# ------------------------------------------------------------------------------------------
+# C09: Regex.tla
+
+def render_ast(r, top=True):
+    t = r[0]
+    ch = lambda c: "é" if c == "e" else c
+    if t == "lit":
+        return "".join(ch(c) for c in r[1])
+    if t == "cls":
+        return "[" + "".join(ch(c) for c in r[1]) + "]"
+    if t == "look":
+        return "$"
+    if t == "cat":
+        return "".join(render_group(x, "cat") for x in r[1:3])
+    if t == "alt":
+        return render_ast(r[1], False) + "|" + render_ast(r[2], False)
+    if t == "rep":
+        lo, hi = r[2], r[3]
+        inner = render_group(r[1], "rep")
+        if (lo, hi) == (0, 99):
+            q = "*"
+        elif (lo, hi) == (1, 99):
+            q = "+"
+        elif (lo, hi) == (0, 1):
+            q = "?"
+        elif hi == 99:
+            q = "{%d,}" % lo
+        elif lo == hi:
+            q = "{%d}" % lo
+        else:
+            q = "{%d,%d}" % (lo, hi)
+        return inner + q
+    raise ValueError(t)
+
+
+def render_group(x, ctx):
+    s = render_ast(x, False)
+    if x[0] == "alt":
+        return "(?:" + s + ")"
+    if ctx == "rep" and not (x[0] == "cls" or (x[0] == "lit" and len(x[1]) == 1)):
+        return "(?:" + s + ")"
+    return s
+
+
+def prio_run(tier, seed):
+    import corpus
+    from pipeline import capture
+    t0 = time.time()
+    depth = 2
+    res = run_tlc("Regex.tla", "Regex.cfg", {"DEPTH": str(depth)}, workers=8, metaname="regex")
+    if not res["ok"]:
+        raise ToolError("Regex.tla: LiteralNotBeaten violated at specification level:\n" + res["out"][-3000:])
+    asts = [r[2] for r in tlc_records(res["out"]) if r[0] == "AST"]
+    rng = random.Random(seed + 9)
+    if tier == "quick" and len(asts) > 2500:
+        small = [a for a in asts if len(json.dumps(a["r"])) < 60]
+        rest = [a for a in asts if a not in small]
+        asts = small + rng.sample(rest, 2500 - min(2500, len(small)))
+    defs = []
+    expect = []
+    for k, a in enumerate(asts):
+        text = render_ast(a["r"])
+        for variant in ("regex", "skip", "icase", "explicit"):
+            if variant != "regex" and k % 7 != 0:
+                continue
+            kw = {"greedy": True}
+            exp = a["prio"]
+            if variant == "icase":
+                kw["icase"] = True
+            if variant == "explicit":
+                kw["prio"] = 11
+                exp = 11
+            if variant == "skip":
+                d = corpus.mk("ast%d_%s" % (k, variant), [corpus.tok("zzzz")], [corpus.skip(text, **kw)])
+                leaf = 0
+            else:
+                d = corpus.mk("ast%d_%s" % (k, variant), [corpus.rx(text, **kw)])
+                leaf = 0
+            defs.append(d)
+            expect.append((exp, leaf, text, variant, a["r"]))
+    # literal tokens: 2 x byte length, explicit priority overrides
+    lits = ["a", "ab", "é", "éa", "a.b", "€", "😀x", "+", "abc"]
+    for k, w in enumerate(lits):
+        defs.append(corpus.mk("tokp%d" % k, [corpus.tok(w)]))
+        expect.append((2 * len(w.encode()), 0, w, "token", None))
+        defs.append(corpus.mk("tokpi%d" % k, [corpus.tok(w, icase=True)]))
+        expect.append((2 * len(w.encode()), 0, w, "token-icase", None))
+        defs.append(corpus.mk("tokpe%d" % k, [corpus.tok(w, prio=3)]))
+        expect.append((3, 0, w, "token-explicit", None))
+    for k, w in enumerate([b"\xff", b"a\x80b", b"ab"]):
+        defs.append(corpus.mk("tokb%d" % k, [corpus.tok(w)], utf8=False))
+        expect.append((2 * len(w), 0, w.hex(), "token-bytes", None))
+    defs_path, metas, _ = capture(defs, "prio")
+    findings = []
+    n_ok = 0
+    for m, (exp, leaf, text, variant, ast) in zip(metas, expect):
+        if m["panic"]:
+            findings.append({"key": "prio:panic:%s:%s" % (variant, text), "what": "derive panicked on %s: %s" % (text, m["panic"]), "source": m["src"]})
+            continue
+        cl = m["captured_leaves"]
+        if not cl:
+            findings.append({"key": "prio:noleaf:%s:%s" % (variant, text), "what": "no leaf captured for %s (%s)" % (text, m["errors"][:1]), "source": m["src"]})
+            continue
+        got = cl[leaf]["prio"]
+        if got != exp:
+            findings.append({"key": "prio:%s:%s" % (variant, text), "what": "%s %r: priority %d, the documented rule gives %d" % (variant, text, got, exp), "source": m["src"], "ast": ast})
+        else:
+            n_ok += 1
+    samples = [{"pattern": e[2], "kind": e[3], "expected_priority": e[0]} for e in expect[:: max(1, len(expect) // 6)][:6]]
+    return {"tlc": {k: res[k] for k in ("states", "distinct", "wall")}, "asts": len(asts), "cases": len(expect), "agree": n_ok, "findings": findings, "samples": samples, "wall": time.time() - t0}
+
+
+# ------------------------------------------------------------------------------------------
+# C16: GenTrace.tla
+
+def det_run(tier, seed, defs):
+    """generate() for every definition on several threads of several processes, both code
+    generators; the digests form a trace validated by GenTrace.tla."""
+    from pipeline import SPEC, TLA_JAR
+    t0 = time.time()
+    for i, d in enumerate(defs):
+        d["enum_name"] = "D%d" % (i + 1)
+    wd = os.path.join(workdir(), "det-%d" % os.getpid())
+    shutil.rmtree(wd, ignore_errors=True)
+    os.makedirs(wd)
+    with open(os.path.join(wd, "in.ndjson"), "w") as f:
+        for d in defs:
+            f.write(json.dumps(d, sort_keys=True) + "\n")
+    threads = 4 if tier == "quick" else 8
+    procs = 3 if tier == "quick" else 8
+    events = []
+    procs_run = []
+    for cfg, feats in (("tc", ()), ("sm", ("sm",))):
+        g = build_gen(feats)
+        for p in range(procs):
+            outp = os.path.join(wd, "h-%s-%d.ndjson" % (cfg, p))
+            procs_run.append((cfg, outp, subprocess.Popen([g, "hash", os.path.join(wd, "in.ndjson"), outp, str(threads)], env=ENV_BASE)))
+    for cfg, outp, p in procs_run:
+        if p.wait() != 0:
+            raise ToolError("gen hash failed")
+        for l in open(outp):
+            e = json.loads(l)
+            e["cfg"] = cfg
+            e["def"] = e.pop("id")
+            e["panic"] = e["panic"] or ""
+            events.append(e)
+    # interleave processes/threads so that the first event per key is not always from the same place
+    rng = random.Random(seed)
+    rng.shuffle(events)
+    tpath = os.path.join(wd, "trace.ndjson")
+    with open(tpath, "w") as f:
+        for e in events:
+            f.write(json.dumps(e) + "\n")
+    cmd = ["timeout", "1200", "java", "-XX:+UseParallelGC", "-Xmx4g", "-Dtlc2.tool.queue.IStateQueue=StateDeque", "-cp", TLA_JAR, "tlc2.TLC", "-workers", "1",
+           "-metadir", os.path.join(wd, "meta"), "-cleanup", "-noGenerateSpecTE", "-config", os.path.join(SPEC, "GenTrace.cfg"), os.path.join(SPEC, "GenTrace.tla")]
+    p = subprocess.run(cmd, cwd=SPEC, env=dict(ENV_BASE, TRACE=tpath), capture_output=True, text=True)
+    findings = []
+    if "No error has been found" not in p.stdout:
+        rej = [r for r in tlc_records(p.stdout) if r[0] == "REJECT"]
+        if not rej:
+            raise ToolError("GenTrace validation failed without REJECT:\n" + p.stdout[-2000:])
+        # report every key with more than one digest (the trace spec stops at the first)
+        by = {}
+        for e in events:
+            by.setdefault((e["def"], e["cfg"]), set()).add((e["out"], e["graph"], e["strip"]))
+        src = {d["id"]: d for d in defs}
+        for (did, cfg), vals in sorted(by.items()):
+            if len(vals) > 1:
+                findings.append({"key": "det:%s:%s" % (did, cfg), "what": "%d different outputs for %s (%s) across %d threads x %d processes: %s" % (len(vals), did, cfg, threads, procs, sorted(vals)[:2]), "definition": src[did]})
+    # the two code generators must be given the same graph
+    g_by = {}
+    for e in events:
+        g_by.setdefault(e["def"], {}).setdefault(e["cfg"], e["graph"])
+    shutil.rmtree(wd, ignore_errors=True)
+    samples = events[:3]
+    return {"events": len(events), "keys": len({(e["def"], e["cfg"]) for e in events}), "threads": threads, "processes": procs, "findings": findings, "samples": samples,
+            "definitions": len(defs), "wall": time.time() - t0}
